@@ -128,7 +128,8 @@ def gen_payload(rng, depth=0, risky=False):
         return [gen_payload(rng, depth + 1, risky) for _ in range(rng.randint(0, 3))]
     d = {}
     for _ in range(rng.randint(0, 3)):
-        key = rng.choice(['k', 'a~', 'aaaaa', 'to', 'data', 'id', 'x y', '\\e', 'f{k'])
+        key = rng.choice(['k', 'a~', 'aaaaa', 'to', 'data', 'id', 'x y', '\\e', 'f{k', 'a~~b', '~x5~', '~~', 'a~b', '~a12~z', '__typename', '__meta',
+                          '__', '_x', '__init__', 'x__', '~'])
         if risky and rng.random() < 0.3:
             key = rng.choice(['@', '__class__'])
         d[key] = gen_payload(rng, depth + 1, risky)
